@@ -491,7 +491,10 @@ static void k_oaep(Tape &t)
 	default: { Z y; mpz_add(y.v, k.n.v, zfrom(oc.data(), oc.size()).v); if (mpz_sizeinbase(y.v, 2) > 8 * k.nlen) { stats.eval(); return; } c2 = zbytes(y, k.nlen); what = "ciphertext >= modulus"; break; }
 	}
 	Bytes d = c2;
+	size_t dl_before = dl;
 	VF_CHECK(im.oaep_dec(h.cls, lab2.data(), lab2.size(), &k.sk, d.data(), &dl) == 0, "rsa_%s oaep_decrypt (%u bits, %s) accepts: %s", im.name, k.bits, h.name, what.c_str());
+	// bearssl_rsa.h: "If decryption fails in any way, then *len is unmodified"
+	VF_CHECK(dl == dl_before, "rsa_%s oaep_decrypt (%u bits, %s) returned 0 for '%s' but changed *len from %zu to %zu (documented: unmodified on failure)", im.name, k.bits, h.name, what.c_str(), dl_before, dl);
 	stats.cls("oaep");
 	stats.eval(fmt("oaep/%u/%s/%d/%zu/%u", k.bits, h.name, ml == maxm ? 2 : ml == 0 ? 0 : 1, label.size() ? (size_t)1 : (size_t)0, mut));
 	if (stats.want_sample()) stats.sample(fmt("OAEP %u bits %s msg=%zu/%zu label=%zu: both directions with OpenSSL; reject: %s", k.bits, h.name, ml, maxm, label.size(), what.c_str()));
